@@ -61,13 +61,16 @@ pub fn configure_sqlite() {
 /// The bundled SQLite shares one page-cache group (one mutex) between all connections of the
 /// process, so more than a few concurrent users only queue on it. Harness tuning only: at most
 /// this many worker threads are inside SQLite at once.
-const SQLITE_PERMITS: usize = 4;
-static PERMITS: (std::sync::Mutex<usize>, std::sync::Condvar) = (std::sync::Mutex::new(SQLITE_PERMITS), std::sync::Condvar::new());
+const SQLITE_PERMITS: usize = 12;
+static PERMITS: (std::sync::Mutex<usize>, std::sync::Condvar) = (std::sync::Mutex::new(usize::MAX), std::sync::Condvar::new());
 
 struct Permit;
 impl Permit {
     fn take() -> Permit {
         let mut n = PERMITS.0.lock().unwrap();
+        if *n == usize::MAX {
+            *n = std::env::var("C18_SQLITE_PERMITS").ok().and_then(|s| s.parse().ok()).unwrap_or(SQLITE_PERMITS);
+        }
         while *n == 0 {
             n = PERMITS.1.wait(n).unwrap();
         }
